@@ -17,9 +17,10 @@
 (*   AtomInit/Next every atom string of length <= K over Alphabet (BFS).   *)
 (*   MutInit/Next  token-level mutations of seed files: insert an atom,    *)
 (*                 delete, duplicate, swap neighbours, unbalance (delete a *)
-(*                 delimiter), cut (truncate); depth 1 exhaustively, depth *)
-(*                 2 by fixed-seed simulation.  Seeds come from IOEnv.SEEDS*)
-(*                 as [ntok, delims].                                      *)
+(*                 delimiter), cut (truncate); depth 1 exhaustively; depth *)
+(*                 2 (PairNext) exhaustively for two insertions of         *)
+(*                 state-changing atoms at the same / neighbouring         *)
+(*                 position.  Seeds come from IOEnv.SEEDS as [ntok, delims]*)
 (*   DescInit      mutation descriptors <<op, quantile, atom>> applied to  *)
 (*                 every .sw file of the repository at position            *)
 (*                 quantile * ntok / Q.                                    *)
@@ -108,6 +109,16 @@ MutNext0 ==
           \/ \E k \in DOMAIN MutAtoms : Insert(p, k)
           \/ Delete(p) \/ Duplicate(p) \/ Swap(p) \/ Unbalance(p) \/ Cut(p)
 
+\* Double mutations, exhaustively for the interacting case: two insertions of state-changing atoms
+\* at the same or at neighbouring positions (quote + quote, comment opener + multi-byte letter, ...).
+NastyAtoms == { k \in DOMAIN MutAtoms : MutAtoms[k] \in {"dq", "sq", "bo", "rb", "l4", "bs"} }
+PairNext0 ==
+    /\ Len(ops) < 2
+    /\ UNCHANGED seed
+    /\ IF ops = <<>>
+       THEN \E p \in 1..(Len(toks) + 1), k \in NastyAtoms : Insert(p, k)
+       ELSE \E p \in {ops[1][2], ops[1][2] + 1}, k \in NastyAtoms : Insert(p, k)
+
 ----------------------------------------------------------------------------
 (* DescSpec: position-independent mutation descriptors for arbitrary files *)
 CONSTANT Q
@@ -149,6 +160,7 @@ AtomInit  == AtomInit0 /\ IdleMut /\ IdleDesc /\ IdleParse
 AtomNext  == AtomNext0 /\ UNCHANGED <<mvars, desc, pvars>>
 MutInit   == MutInit0 /\ IdleAtoms /\ IdleDesc /\ IdleParse
 MutNext   == MutNext0 /\ UNCHANGED <<s, desc, pvars>>
+PairNext  == PairNext0 /\ UNCHANGED <<s, desc, pvars>>
 DescInit  == DescInit0 /\ IdleAtoms /\ IdleMut /\ IdleParse
 DescNext  == FALSE /\ UNCHANGED <<s, mvars, desc, pvars>>
 ParseInit == ParseInit0 /\ IdleAtoms /\ IdleMut /\ IdleDesc
